@@ -86,34 +86,40 @@ theorem used_langs (st : St) (l : Nat) :
   · rintro ⟨p, hp, hv⟩
     exact ⟨p, hp, l + 1, hv, by simp⟩
 
-/-- GOAL (full strength): the language views inside the preimage are the canonical map of the specification. -/
-def views_canonical_goal : Prop :=
-  ∀ (langs : List Nat) (pp : Nat → CostModel), (∀ l ∈ langs, l < 3) → (∀ l, ((pp l).map (·.1)).Nodup) →
-    langViews langs pp = languageViews (dedupNat langs) pp
+/-- **the language views are canonical** (full strength, for the repaired iteration order of /repo 864980f): for every
+set of languages — any list of ids below 256, in any order, with repetitions; the ledger knows 0, 1, 2 — the bytes
+inside the hash preimage are the specification's language views: a definite map whose keys are in canonical order
+(shortest encoding first, then bytewise), V1 under the key `41 00` last.  The only other hypothesis is that the V1
+cost model is a dict (distinct parameter names), when V1 is used at all. -/
+theorem views_canonical (langs : List Nat) (pp : Nat → CostModel) (hl : ∀ l ∈ langs, l < 256)
+    (hn : 0 ∈ langs → ((pp 0).map (·.1)).Nodup) :
+    langViews langs pp = languageViews (dedupNat langs) pp := langViews_canonical langs pp hl hn
 
-/-- proved part: a single language, or no Plutus V1 among the languages -/
-theorem views_canonical_partial (langs : List Nat) (pp : Nat → CostModel) (hl : ∀ l ∈ langs, l < 3)
-    (hn : ∀ l, ((pp l).map (·.1)).Nodup) (h : (dedupNat langs).length ≤ 1 ∨ 0 ∉ langs) :
-    langViews langs pp = languageViews (dedupNat langs) pp := by
-  rcases h with h | h
-  · exact langViews_canonical_single langs pp h (fun _ => hn 0)
-  · apply langViews_canonical_noV1
-    intro l hm
-    have := hl l hm
-    have : l ≠ 0 := fun e => h (e ▸ hm)
-    omega
+/-- the keys of the emitted map are in canonical order: each emitted key is `lenLexLe` every later one -/
+theorem views_keys_sorted (langs : List Nat) (hl : ∀ l ∈ langs, l < 256) :
+    ((sortLangs langs).map viewKey).Pairwise (fun a b => lenLexLe a b = true) := by
+  rw [List.pairwise_map]
+  refine (sortLangs_strict langs).imp_of_mem ?_
+  intro a b ha hb hab
+  have m : ∀ x ∈ sortLangs langs, x < 256 := fun x hx =>
+    hl x ((mem_dedupNat x langs).1 ((sortLangs_perm langs).subset hx))
+  exact viewKey_order a b (m a ha) (m b hb) hab
 
-/-- the full-strength goal is false of the code: Plutus V1 together with V2 puts the two-byte key `41 00` before the
-one-byte key `01`, where the canonical order is shortest key first -/
-theorem views_canonical_counterexample : ¬ views_canonical_goal := by
-  intro h
-  have := h [0, 1] (fun _ => []) (by decide) (by intro l; simp)
-  revert this
+/-- documentation of the repaired defect KF-C12-views-order: the PINNED tree iterated `sorted(self.keys())`, which
+for Plutus V1 together with V2 puts the two-byte key `41 00` before the one-byte key `01` — not the canonical map -/
+theorem views_pinned_order_noncanonical :
+    langViewsPinned [0, 1] (fun _ => []) ≠ languageViews [0, 1] (fun _ => []) := by
   decide +kernel
 
-/-- the model's bytes for V1+V2 (empty tables): `a2 4100 42 9fff 01 80`, the specification's: `a2 01 80 4100 42 9fff` -/
-example : langViews [0, 1] (fun _ => []) = [0xa2, 0x41, 0x00, 0x42, 0x9f, 0xff, 0x01, 0x80] ∧
+/-- pinned: `a2 4100 42 9fff 01 80`; repaired model = specification: `a2 01 80 4100 42 9fff` -/
+example : langViewsPinned [0, 1] (fun _ => []) = [0xa2, 0x41, 0x00, 0x42, 0x9f, 0xff, 0x01, 0x80] ∧
+    langViews [1, 0, 1] (fun _ => []) = [0xa2, 0x01, 0x80, 0x41, 0x00, 0x42, 0x9f, 0xff] ∧
     languageViews [0, 1] (fun _ => []) = [0xa2, 0x01, 0x80, 0x41, 0x00, 0x42, 0x9f, 0xff] := by decide +kernel
+
+/-- all three languages with non-empty tables (V1 names out of order, a negative and a > 64-bit value) -/
+example :
+    let pp : Nat → CostModel := fun l => if l = 0 then [([0x62], 2), ([0x61], -1)] else [([0x7a], 18446744073709551616)]
+    langViews [0, 2, 1] pp = languageViews [0, 1, 2] pp ∧ (∀ l ∈ [0, 2, 1], l < 256) := by decide +kernel
 
 /-- **redeemer map**: in map form the entries come out in canonical key order, and (for pairwise distinct
 `(tag, index)`, as in every transaction the ledger accepts) the bytes are a function of the *set* of redeemers -/
@@ -162,8 +168,9 @@ end Pyc.C12
 #print axioms Pyc.C12.views_v1
 #print axioms Pyc.C12.views_vn
 #print axioms Pyc.C12.used_langs
-#print axioms Pyc.C12.views_canonical_partial
-#print axioms Pyc.C12.views_canonical_counterexample
+#print axioms Pyc.C12.views_canonical
+#print axioms Pyc.C12.views_keys_sorted
+#print axioms Pyc.C12.views_pinned_order_noncanonical
 #print axioms Pyc.C12.redeemer_map_order
 #print axioms Pyc.C12.redeemer_map_set
 #print axioms Pyc.C12.redeemer_list_form
